@@ -82,6 +82,32 @@ func runSolver(cfg SolverCfg, file string, timeoutS int) solveOut {
 func (ex *Exec) Discharge(o *Obligation, dir string, timeoutS int, second bool) {
 	ts := ex.ts
 	asserts := append([]*Term{}, ex.assumes[:o.NAssume]...)
+	if !o.MustBeSat {
+		// quantified facts about lock bookkeeping (held, rheld, pile) only
+		// matter to goals that talk about locks; for the others they are left
+		// out (dropping assumptions is sound and keeps the queries decidable
+		// in practice)
+		lockSym := func(t *Term) bool {
+			return ex.ts.Mentions(t, func(name string) bool {
+				for _, g := range []string{"held", "rheld", "pile"} {
+					if strings.Contains(name, "G_3a_"+g) || strings.HasPrefix(name, "g!"+g+"!") {
+						return true
+					}
+				}
+				return false
+			})
+		}
+		if !lockSym(o.PC) && !lockSym(o.Cond) {
+			kept := asserts[:0]
+			for _, a := range asserts {
+				if ex.ts.HasQuantifier(a) && lockSym(a) {
+					continue
+				}
+				kept = append(kept, a)
+			}
+			asserts = kept
+		}
+	}
 	asserts = append(asserts, o.PC)
 	if !o.MustBeSat {
 		asserts = append(asserts, ts.Not(o.Cond))
